@@ -88,6 +88,7 @@ def _run_window(flavour, fmt, counts, store, path, named, reconnecting):
     tick, p0, p1, p2, p3, p4, p5 = counts
     gw, conn = make(flavour, named)
     order = []
+    stopped = [False]
     swap_failed = [False]
     during = [0]
     in_stop = [False]
@@ -111,12 +112,17 @@ def _run_window(flavour, fmt, counts, store, path, named, reconnecting):
             n, during[0] = during[0], 0
             pump(gw, n)
 
+    nested = [None]
+
     def perform_file_action(filename, action):
         result = real_action(filename, action)
         if action == "save":
             # the network has been serialised; the file has not been swapped in yet
             n, during[0] = during[0], 0
             pump(gw, n)
+            hook, nested[0] = nested[0], None
+            if hook is not None:
+                hook()
         return result
     tr.disconnect = disconnect
     pers.save_sensors = save_sensors
@@ -138,6 +144,26 @@ def _run_window(flavour, fmt, counts, store, path, named, reconnecting):
                 pass
             finally:
                 os.rename(store + ".away", store)
+        elif tick in (5, 6):
+            # the user's stop() arrives while a periodic save is writing (the save timer runs on its own thread):
+            # p1 lines after the periodic save serialised the network, then the whole of stop() — p2 lines at its
+            # disconnect — and only then does the periodic save get to swap its file in.  Tick 6: a file from an
+            # earlier save exists.
+            if tick == 6:
+                pers.save_sensors()
+                pump(gw, 1)
+
+            def stop_inside():
+                pump(gw, p1)
+                in_stop[0] = True
+                gw.stop()
+                in_stop[0] = False
+            nested[0] = stop_inside
+            try:
+                pers.save_sensors()
+            except OSError:
+                pass                    # the periodic save lost the race for the temporary file: logged, not fatal
+            stopped[0] = True
         elif tick in (3, 4):
             # a periodic save that wrote its data but could not swap the file in: the first (tick 3) or the
             # second (tick 4) rename / replace of the swap fails once (target busy, sharing violation).  Before
@@ -167,7 +193,9 @@ def _run_window(flavour, fmt, counts, store, path, named, reconnecting):
             finally:
                 pmod.os = real_os
         in_stop[0] = True
-        if flavour == "sync":
+        if stopped[0]:
+            pass
+        elif flavour == "sync":
             gw.stop()
         else:
             loop = asyncio.new_event_loop()
@@ -200,6 +228,8 @@ def _run_window(flavour, fmt, counts, store, path, named, reconnecting):
     in_file = sorted(loaded) if err is None else ["load-raised"]
     if tick in (3, 4) and not swap_failed[0] and exc is None:
         exc = "swap-did-not-fail"       # the save got by without the failing call: told apart by model_line
+    if tick in (5, 6) and exc is None:
+        exc = "no-model"                # two saves at once: outside the window model (its `hidle` premise)
     return order, handed, in_file, int(bool(pers.need_save)), exc
 
 
@@ -224,7 +254,7 @@ def model_line(counts, swap_failed=True):
 
 def windows(tier):
     top = 2 if tier == "quick" else 3
-    for tick in (0, 1, 2, 3, 4):
+    for tick in (0, 1, 2, 3, 4, 5, 6):
         for c in itertools.product(range(top), repeat=6):
             if not tick and c[1]:
                 continue
@@ -291,6 +321,8 @@ def part(res, prop, driver, tier):
                 for counts in windows(tier):
                     if tier == "quick" and fmt == "pickle" and sum(counts[1:]) not in (1, 2):
                         continue
+                    if counts[0] in (5, 6) and flavour != "sync":
+                        continue      # (the asyncio stop() awaits the cancelled save task first)
                     # asyncio flavour: every other window is a stop() issued while the gateway is re-dialling
                     reconnecting = flavour == "async" and sum(counts) % 2 == 1
                     order, handed, in_file, dirty, exc = run_window(flavour, fmt, counts, work, reconnecting)
@@ -302,6 +334,9 @@ def part(res, prop, driver, tier):
                            "reconnecting": reconnecting}
                     key = {"kind": "stop-window", "flavour": flavour}
                     swap_failed = True
+                    no_model = exc == "no-model"
+                    if no_model:
+                        exc = None
                     if exc == "swap-did-not-fail":
                         exc, swap_failed = None, False
                     if exc is not None:
@@ -313,9 +348,11 @@ def part(res, prop, driver, tier):
                         res.oracle_failures.append({
                             "key": dict(key, what="handed-not-saved"), "replay": rep,
                             "what": f"{flavour} gateway, {fmt}: ids {lost} went out on the wire but are not in the file "
-                                    f"stop() left (order of stop's actions: {order}; periodic save first: {['no', 'yes', 'yes, storage unavailable', 'yes, then one whose file swap failed at the first step', 'yes, then one whose file swap failed at the second step'][counts[0]]}; "
+                                    f"stop() left (order of stop's actions: {order}; periodic save first: {['no', 'yes', 'yes, storage unavailable', 'yes, then one whose file swap failed at the first step', 'yes, then one whose file swap failed at the second step', 'stop() arrives while it writes', 'stop() arrives while it writes (a file from an earlier save exists)'][counts[0]]}; "
                                     f"id requests before / while the periodic save writes / at the disconnect / before "
                                     f"the final save / while it writes / after stop = {counts[1:]})"})
+                    if no_model:
+                        continue
                     lines.append(model_line(counts, swap_failed))
                     impl.append(f"handed={','.join(map(str, handed)) or '-'} "
                                 f"file={','.join(map(str, in_file)) or '-'} connected=0 dirty={dirty}")
@@ -362,6 +399,6 @@ def replay(r):
     finally:
         shutil.rmtree(work, ignore_errors=True)
     print("order of stop's actions:", order, " handed out:", handed, " in the file:", in_file, " raised:", exc)
-    if exc == "swap-did-not-fail":
+    if exc in ("swap-did-not-fail", "no-model"):
         exc = None
     return 1 if exc is not None or any(i not in in_file for i in handed) else 0
